@@ -164,3 +164,7 @@ def replay(d):
         _avail(d['hand'], d['led'], c, 'replay')
         return bool(c.violations), '\n'.join(v.message for v in c.violations) or 'ok'
     return C04.replay(d)
+
+
+from ..conc import driver as _conc  # noqa: E402
+_conc.wrap(globals(), 'C06')
